@@ -914,6 +914,8 @@ func compilePhase(cr *checkResult, _ *symex.World) {
 	}
 	try("instances/compile/corpus.matryer", "/verif/corpus/m/ifaces.go with template matryer", []instVariant{{pkg: "m", template: "matryer", templateData: "{skip-ensure: false, with-resets: true}"}})
 	try("instances/compile/corpus.testify", "/verif/corpus/m/ifaces.go with template testify", []instVariant{{pkg: "t", template: "testify", templateData: "{unroll-variadic: true}"}, {pkg: "tn", template: "testify", templateData: "{unroll-variadic: false}"}})
+	try("instances/compile/corpus.matryer.outofpkg", "/verif/corpus/m/ifaces.go with template matryer, generated into a sub-directory as package mocks", []instVariant{{pkg: "mo", template: "matryer", templateData: "{skip-ensure: false}", outOfPkg: true}})
+	try("instances/compile/corpus.testify.outofpkg", "/verif/corpus/m/ifaces.go with template testify, generated into a sub-directory as package mocks", []instVariant{{pkg: "to", template: "testify", templateData: "{unroll-variadic: true}", outOfPkg: true}})
 	for _, b := range badShapes {
 		shape := strings.TrimSuffix(b.file, ".go")
 		if b.name != "" {
@@ -941,4 +943,84 @@ func isInterfaceType(t types.Type) bool {
 	}
 	_, ok := t.Underlying().(*types.Interface)
 	return ok
+}
+
+// ---- C02 instance facts: every generated mock of the corpus implements its interface (go/types) ----
+
+// implementsPhase generates the corpus with both templates and asks go/types whether *Mock implements the
+// source interface (non-generic interfaces; generic ones are covered by the matryer ensure line and the
+// type-parameter fact of C04). Decided per instance, with the corpus interface as the concrete input.
+func implementsPhase(cr *checkResult, _ *symex.World) {
+	env, err := newInstEnv()
+	if env != nil {
+		defer env.close()
+	}
+	if err != nil {
+		cr.undecided = append(cr.undecided, fmt.Sprintf("UNDECIDED property=%s obligation=build reason=%s", cr.prop, strings.ReplaceAll(err.Error(), "\n", " | ")))
+		return
+	}
+	variants := []instVariant{
+		{pkg: "m", template: "matryer", templateData: "{skip-ensure: true}"},
+		{pkg: "t", template: "testify", templateData: "{unroll-variadic: true}", unroll: true},
+		{pkg: "tn", template: "testify", templateData: "{unroll-variadic: false}"},
+	}
+	root, err := env.generate(variants)
+	var pkgs map[string]*packages.Package
+	if err == nil {
+		pkgs, err = loadTypes(root, variants)
+	}
+	if err != nil {
+		cr.undecided = append(cr.undecided, fmt.Sprintf("UNDECIDED property=%s obligation=instances reason=the corpus could not be generated or does not type-check (reported by C01/C03/C04): %s", cr.prop, strings.ReplaceAll(tail(err.Error(), 300), "\n", " | ")))
+		return
+	}
+	for _, v := range variants {
+		p := pkgs[v.pkg]
+		if p == nil {
+			continue
+		}
+		prefix := "Moq"
+		if v.template == "testify" {
+			prefix = "Mock"
+		}
+		scope := p.Types.Scope()
+		names := scope.Names()
+		sort.Strings(names)
+		for _, n := range names {
+			tn, ok := scope.Lookup(n).(*types.TypeName)
+			if !ok || strings.HasPrefix(n, prefix) {
+				continue
+			}
+			iface, ok := tn.Type().Underlying().(*types.Interface)
+			if !ok {
+				continue
+			}
+			if named, ok := tn.Type().(*types.Named); ok && named.TypeParams().Len() > 0 {
+				continue
+			}
+			name := fmt.Sprintf("instances/implements/%s.%s%s", v.pkg, prefix, n)
+			mock, _ := scope.Lookup(prefix + n).(*types.TypeName)
+			ok = mock != nil && types.Implements(types.NewPointer(mock.Type()), iface)
+			cr.obligations++
+			res := "proved"
+			if ok {
+				cr.discharged++
+			} else {
+				res = "refuted"
+				dir := filepath.Join(outDir(), "replays", cr.prop)
+				os.MkdirAll(dir, 0o755)
+				path := filepath.Join(dir, sanitize(name)+".txt")
+				why := "missing method or wrong signature"
+				if mock != nil {
+					if m, wrong := types.MissingMethod(types.NewPointer(mock.Type()), iface, true); m != nil {
+						why = fmt.Sprintf("method %s (wrong signature: %v)", m.Name(), wrong)
+					}
+				} else {
+					why = "no type " + prefix + n + " was generated"
+				}
+				os.WriteFile(path, []byte(fmt.Sprintf("property: %s\nfailed obligation: %s (decided by go/types on the generated instance)\n*%s%s does not implement %s: %s\nfailing input: interface %s of /verif/corpus/m/ifaces.go, template %s, template-data %s\n", cr.prop, name, prefix, n, n, why, n, v.template, v.templateData)), 0o644)
+				cr.violations = append(cr.violations, fmt.Sprintf("VIOLATION property=%s replay=%s obligation=%s", cr.prop, path, name))
+			}
+			cr.per = append(cr.per, perObl{Name: name, Kind: "implements", Result: res, Backend: "go/types"})
+		}
+	}
 }
